@@ -321,13 +321,13 @@ func (m *Machine) finishPath() {
 		}
 	}
 	if len(pr.Covers) > 0 && m.ex.needCoverModel(pr.Covers) && !m.concrete {
-		switch m.checkRefined() { // model validated against the native evaluators of the UFs (refine_agentC.go)
-		case Sat:
+		switch m.withRefinedModel(func() { // model validated against the native evaluators of the UFs (refine_agentC.go)
 			model, _, ok := m.modelOfInputs()
 			if ok {
 				pr.CoverModel = model
 				pr.Obs = m.evalObservations()
 			}
+		}) {
 		case Unsat:
 			// the path only existed because an uninterpreted function was unconstrained
 			pr.Status, pr.Covers = "infeasible", nil
